@@ -260,6 +260,9 @@ def window_docs(d, icvn, span):
                         continue
                     text = hdr + 'AA' + ele + 'A' * padlen + seg + t + 'A1' + ele + '1' + seg
                     yield text
+    # one segment longer than two and than four read buffers, followed by ordinary segments
+    for L in (2 * 8192 - 120, 2 * 8192 - 106, 2 * 8192, 17000, 20000, 4 * 8192 + 5):
+        yield hdr + 'A1' + ele + '1' + seg + 'BIN' + ele + 'A' * L + seg + 'A2' + ele + 'x' + sub + 'y' + seg + '\n' + 'A3' + ele + '3' + seg
 
 
 def work_windows(shard):
@@ -412,7 +415,7 @@ def run(R):
     R.bounds = {'A': 'all bodies of length <= %d over {A,1,ele,sub,seg,LF,CR,SP}, both versions, buffer 8192' % nA,
                 'B': 'all bodies <= %d x buffer sizes {1,2,3,5,8} x every read schedule with <= %d short reads (+ one-char and short-by-one schedules)' % (nB, devB),
                 'C': '%d delimiter triples x all bodies <= %d x buffer {8192,3}' % (len(triples(T)) - 1, nC),
-                'windows': 'every character of 6 tails at every offset -%d..+%d around 106+8192 and 106+2*8192, incl. a segment longer than the buffer' % (span, span),
+                'windows': 'every character of 6 tails at every offset -%d..+%d around 106+8192 and 106+2*8192, incl. a segment longer than the buffer; plus segments of 16 264 .. 32 773 characters (longer than two / four buffers)' % (span, span),
                 'isa fields': '%d delimiter triples x 2 versions x 14 headers with the component separator inside ISA02/04/06/08/09 x all bodies <= %d (+ the header repeated mid-stream) x {default, buffer 3, one-char reads}' % (len(triples(T)), 3 if T else 2),
                 'resume': 'all bodies <= %d x buffer {8192, 3} x every k: the consumer leaves its loop after k segments and iterates the same reader again' % nR,
                 'source kinds': 'StringIO, open text file, path string, and StringIO / open file positioned behind a header line or an earlier interchange, on all CR-free bodies <= %d' % (4 if T else 3)}
